@@ -828,6 +828,22 @@ pub fn observe(toks: &[&str], scratch: &Path) -> String {
             let xml = render_glif(&intended, f, &mut s, x);
             observe_glif(&xml, Some(&intended))
         }
+        "special" => {
+            // hand-written trees for the recorded font-level findings
+            let src = scratch.join("c04-in.ufo");
+            rm_rf(&src);
+            let hdr = "<?xml version=\"1.0\" encoding=\"UTF-8\"?>\n<plist version=\"1.0\">";
+            wr(&src.join("metainfo.plist"), format!("{}<dict><key>creator</key><string>x</string><key>formatVersion</key><integer>3</integer></dict></plist>", hdr).as_bytes());
+            wr(&src.join("layercontents.plist"), format!("{}<array><array><string>public.default</string><string>glyphs</string></array></array></plist>", hdr).as_bytes());
+            wr(&src.join("glyphs/contents.plist"), format!("{}<dict/></plist>", hdr).as_bytes());
+            match field(toks, "x") {
+                "objlibs-no-fontinfo" => wr(&src.join("lib.plist"), format!("{}<dict><key>public.objectLibs</key><dict><key>g1</key><dict><key>k</key><string>v</string></dict></dict><key>other</key><integer>1</integer></dict></plist>", hdr).as_bytes()),
+                _ => {}
+            }
+            let r = observe_tree(&src, None, scratch);
+            rm_rf(&src);
+            r
+        }
         "glifdata" => {
             let rel = String::from_utf8(unhex(field(toks, "p"))).unwrap();
             match std::fs::read(testdata_root().join(&rel)) {
@@ -868,7 +884,7 @@ pub fn gen(tier: &str, seed: u64, out: &mut dyn Write) {
         emit(out, &scratch, &["glifdata".to_string(), format!("p={}", hexs(g))]);
     }
     // generated trees
-    let n = if tier == "thorough" { 12_000 } else { 700 };
+    let n = if tier == "thorough" { 12_000 } else { 500 };
     for i in 0..n {
         let mut spec = gen_spec(&mut rng, if i % 40 == 7 { 8 } else { i % 40 }); // no tiny numbers here (C01 owns that finding)
         let v = *rng.pick(&[3u8, 3, 3, 3, 2, 1]);
